@@ -100,7 +100,14 @@ pub async fn run_suite(suite: &str, seed: u64, cases: usize) -> (String, String)
             "kv" => gen_kv(&mut sim, &mut crng, &mut stats, &name).await,
             // every 25th proc case is the scripted "member header refused at the datagram limit" history
             "proc" if case % 25 == 24 => gen_proc_header_boundary(&mut sim, &mut crng, &mut stats, &name).await,
-            "proc" => gen_proc(&mut sim, &mut crng, &mut stats, &name).await,
+            "proc" => {
+                gen_proc(&mut sim, &mut crng, &mut stats, &name).await;
+                if case % 10 == 3 {
+                    // an extra scripted case (generator forked from this case's: no other case moves)
+                    let mut xr = crng.fork();
+                    gen_proc_two_setmax_only(&mut sim, &mut xr, &mut stats, &format!("{name}x")).await;
+                }
+            }
             "delta" => gen_delta(&mut sim, &mut crng, &mut stats, &name).await,
             "fill" => gen_fill(&mut sim, &mut crng, &mut stats, &name).await,
             "wire" => gen_wire(&mut sim, &mut crng, &mut stats, &name).await,
@@ -850,6 +857,22 @@ pub async fn gen_catchup(sim: &mut Sim, rng: &mut Prng, stats: &mut Stats, name:
                 stats.bump(if consistent { "catchup_consistent" } else { "catchup_arbitrary" });
             }
         }
+    }
+    if !sim.dead_case && rng.chance(1, 3) {
+        // a copy left mid-reset (watermark W above its max version M) is caught up with a state that
+        // is newer overall (max version above W) but whose own watermark is OLDER than W and whose
+        // keys all lie below W (a relayed partial copy): the result must keep watermark W
+        stats.bump("catchup_mid_reset_copy_older_watermark");
+        let n = rng.below(2) as usize;
+        let member = mk_id("mid", 3, 4003);
+        let m = 1 + rng.below(9);
+        let w = m + 5 + rng.below(40);
+        sim.catchup(n, &member, &[("a".to_string(), "x".to_string(), m, 0)], m, w);
+        let v = m + 1 + rng.below(w - m - 1);
+        let mx = w + rng.below(20);
+        let g = rng.below(w);
+        let st = *rng.pick(&[0u8, 0, 1, 2]);
+        sim.catchup(n, &member, &[("b".to_string(), "y".to_string(), v, st)], mx, g);
     }
 }
 
@@ -2053,6 +2076,56 @@ async fn gen_proc_header_boundary(sim: &mut Sim, rng: &mut Prng, stats: &mut Sta
     full_handshake(sim, 0, 2);
     full_handshake(sim, 1, 2);
     full_handshake(sim, 2, 0);
+}
+
+// Two owners whose newest versions were deletions that everybody has collected; a relay that holds
+// both; a node that was away: its first handshake with the relay resets both copies, the second
+// one has nothing to carry but TWO max versions (SetMaxVersion-only node deltas for two known
+// members in one reply).  Each copy must end at ITS owner's max version.
+async fn gen_proc_two_setmax_only(sim: &mut Sim, rng: &mut Prng, stats: &mut Stats, name: &str) {
+    sim.start_case(name);
+    sim.no_events();
+    let kv_grace: u64 = 1_000_000;
+    let mk = |nm: &str, port: u16| {
+        let mut s = NodeSpec::simple(mk_id(nm, 0, port));
+        s.kv_grace_ns = kv_grace;
+        s
+    };
+    // the member that comes first in id order is sometimes the more advanced one, sometimes not
+    let (nx, ny) = if rng.chance(1, 2) { ("m1", "m2") } else { ("m2", "m1") };
+    let x = sim.join(mk(nx, 2201));
+    let y = sim.join(mk(ny, 2202));
+    let s = sim.join(mk("relay", 2203));
+    let p = sim.join(mk("away", 2204));
+    sim.set(x, "xa", "1");
+    sim.set(y, "ya", "1");
+    full_handshake(sim, p, x);
+    full_handshake(sim, p, y);
+    full_handshake(sim, p, s);
+    let nx_extra = rng.range(2, 4);
+    for i in 0..nx_extra {
+        sim.set(x, &format!("xt{i}"), "v");
+    }
+    for i in 0..nx_extra {
+        sim.delete(x, &format!("xt{i}"));
+    }
+    sim.set(y, "yt", "v");
+    sim.delete(y, "yt");
+    for _ in 0..2 {
+        full_handshake(sim, s, x);
+        full_handshake(sim, s, y);
+    }
+    sim.tick(kv_grace + 1).await;
+    for n in [x, y, s, p] {
+        sim.gc(n);
+    }
+    full_handshake(sim, p, s); // both copies reset
+    full_handshake(sim, p, s); // only the two max versions are left to send
+    full_handshake(sim, p, y);
+    full_handshake(sim, p, x);
+    full_handshake(sim, s, p);
+    full_handshake(sim, s, y);
+    stats.bump("cases_two_setmax_only");
 }
 
 fn full_handshake(sim: &mut Sim, a: usize, b: usize) {
